@@ -489,7 +489,13 @@ fn pick_len(r: &mut Rng, big: bool, max: usize) -> usize {
 
 fn byz_shape(r: &mut Rng, master: u8) -> ByzShape {
     match r.below(20) {
-        0 => ByzShape::Silent,
+        0 => {
+            if r.chance(1, 4) {
+                ByzShape::ReadyDiag
+            } else {
+                ByzShape::Silent
+            }
+        }
         1 => ByzShape::Late,
         2 => ByzShape::WrongSsap,
         3 => ByzShape::WrongDsap,
@@ -1518,7 +1524,7 @@ pub fn scan_world(r: &mut Rng, tier: Tier) -> (WorldCfg, OracleCfg, Vec<Fault>) 
 /// or reply).  Singles come first (48 positions x 10 kinds), then pairs.
 fn systematic_dp_faults(idx: u64, w: &WorldCfg, random_plan: &[Fault], quiet_phase: bool) -> Vec<Fault> {
     const POS: u64 = 48;
-    const KINDS: u64 = 11;
+    const KINDS: u64 = 12;
     let nsl = w.slaves.len() as u64;
     let one = |n: u64, a: u64, out: &mut Vec<Fault>| {
         let sl = (n % nsl) as usize;
@@ -1546,6 +1552,12 @@ fn systematic_dp_faults(idx: u64, w: &WorldCfg, random_plan: &[Fault], quiet_pha
                 },
             ),
             9 => (req, FaultKind::LostWithStraySc),
+            10 => {
+                // a negative acknowledgement ("service not activated") to this request, and the
+                // next diagnostics reply claims readiness all the same
+                out.push(Fault { trig: Trigger::NthTx { n: n as u32, class: TxClass::DpRequest }, kind: FaultKind::SlaveByz { slave: sl, shape: ByzShape::Status(3), count: 1 }, delay_us: 0 });
+                (req, FaultKind::SlaveByz { slave: sl, shape: ByzShape::ReadyDiag, count: 1 })
+            }
             _ => {
                 if quiet_phase {
                     (req, FaultKind::RxDrop { node: 0 })
@@ -1847,7 +1859,7 @@ pub fn generate(check: &str, tier: Tier, base_seed: u64, k: u64) -> Scenario {
                 apps: true,
                 responders: true,
                 staged_joins: check == "C13",
-                leaves: false,
+                leaves: check == "C15",
                 buggify: check == "C15",
                 skew: true,
                 extra_rotations: 60,
